@@ -240,7 +240,7 @@ def gen_plan(profile, seed, tier="quick"):
         sb["out"] = "r%d" % nreg[0]
         sb["i6"] = False
         if o["op"] == "call":
-            how = _wchoice(rng, [("dtype", 4), ("values", 2), ("layout", 1.5), ("grad", 1.5)])
+            how = _wchoice(rng, [("dtype", 4), ("values", 2), ("layout", 1.5), ("grad", 3)])
             if how == "dtype":
                 # the other precision, or (20 %) a reduced precision the pinned
                 # library rejects - judged like any other call if accepted
@@ -251,7 +251,7 @@ def gen_plan(profile, seed, tier="quick"):
             elif how == "layout":
                 sb["arg"]["layout"] = _pick(rng, ["contig", "transposed", "step", "offset", "chlast"])
             else:
-                sb["grad_mode"] = _pick(rng, ["ambient", "no_grad", "inference"])
+                sb["grad_mode"] = _pick(rng, ["ambient", "no_grad", "inference", "inference"])
                 sb["requires_grad"] = not o["requires_grad"]
         else:
             how = _wchoice(rng, [("dtype", 4), ("mask", 3), ("perturb", 1), ("shape", 1)])
@@ -488,7 +488,7 @@ def gen_func(rng, oid, knobs):
     mode = _pick(rng, ["zero", "symmetric", "periodization", "reflect", "periodic"])
     op = {"op": "func", "id": oid, "fn": fn, "wave": _pick(rng, catalog.WAVES_SIMPLE + ["db4"]),
           "mode": mode, "prep": rng.random() < 0.5,
-          "grad_mode": _pick(rng, ["ambient", "ambient", "no_grad"]),
+          "grad_mode": _pick(rng, ["ambient", "ambient", "ambient", "no_grad", "inference"]),
           "requires_grad": rng.random() < 0.3, "alias_args": rng.random() < 0.1}
     if fn == "prepfn":
         op["args"] = []
